@@ -123,6 +123,19 @@ def check_sets(out, an, conv, sets, tol, dim):
                 dxy[:, 2] = 0.0
                 inplane = np.linalg.norm(dxy @ cc, axis=1).min()
                 kind = "offset-along-nonperiodic-axis" if inplane <= 2 * tol else "inplane"
+                if kind == "inplane":
+                    # MatID exchanges the layer normal with c in the returned 2D cell (swap_basis) but the representative is
+                    # written in spglib's standard axes (e.g. monoclinic unique axis b = layer normal): a representative that
+                    # regenerates the atoms in-plane once its components are exchanged the same way is that (known) frame
+                    # mismatch; anything else stays an in-plane violation
+                    for ax in (0, 1):
+                        q2 = q.copy()
+                        q2[[ax, 2]] = q2[[2, ax]]
+                        d2 = sp[ii] - q2
+                        d2 -= np.rint(d2)
+                        d2[:, 2] = 0.0
+                        if np.linalg.norm(d2 @ cc, axis=1).min() <= 2 * tol:
+                            kind = "axes-swapped"
                 out.fail("regenerates-an-atom", "2D: set %s of group %d: representative %s with %s lands %.4g A from the nearest atom of the set (in-plane %.4g A)" % (s.wyckoff_letter, sg, s.representative, vals, dist, inplane),
                          key="2D:regen:%s" % kind)
             else:
